@@ -117,9 +117,17 @@ func c04Run(sc *C04Scenario) (v *nodeViolation, flags map[string]bool) {
 		body[at] = &c
 		corrupted = true
 	case "dup":
-		// the last transaction once more: with an odd count this body has the same merkle root
-		body = append(body, body[len(body)-1])
+		// the last 2^k transactions once more (k = At mod 4, as far as the body allows): when the
+		// number of 2^k-groups is odd this body has the same merkle root
+		d := 1 << uint(sc.At%4)
+		for d > len(body) {
+			d /= 2
+		}
+		body = append(body, body[len(body)-d:]...)
 		corrupted = true
+		if d > 1 {
+			flags["repeated-run"] = true
+		}
 	}
 	mutatedSameRoot := false
 	if corrupted {
@@ -171,14 +179,14 @@ func c04Run(sc *C04Scenario) (v *nodeViolation, flags map[string]bool) {
 			}
 			seenNote[e.TxID]++
 			if seenNote[e.TxID] > 1 {
-				return &nodeViolation{"C04/mutated-block/delivered-twice", fmt.Sprintf("a block body with its last transaction repeated (%d txs, same merkle root) was accepted and a transaction of it was notified %d times", len(body), seenNote[e.TxID])}, flags
+				return &nodeViolation{"C04/mutated-block/delivered-twice", fmt.Sprintf("a block body with its last transactions repeated (%d txs, same merkle root) was accepted and a transaction of it was notified %d times", len(body), seenNote[e.TxID])}, flags
 			}
 			mp := e.State.MerkleProof
 			if mp == nil {
 				return &nodeViolation{"C04/mutated-block/proof-missing", "a notification from a block with a repeated last transaction carries no proof"}, flags
 			}
 			if root, ok := verifkit.VerifyBranch(e.TxID, mp.Index, mp.Path, mp.DuplicatedIndexes); !ok || root != a2.Header.MerkleRoot {
-				return &nodeViolation{"C04/mutated-block/proof-invalid", fmt.Sprintf("a block body with its last transaction repeated (%d txs, same merkle root) was accepted and the proof for index %d does not verify", len(body), mp.Index)}, flags
+				return &nodeViolation{"C04/mutated-block/proof-invalid", fmt.Sprintf("a block body with its last transactions repeated (%d txs, same merkle root) was accepted and the proof for index %d does not verify", len(body), mp.Index)}, flags
 			}
 		}
 		return nil, flags
@@ -347,24 +355,27 @@ func TestC04Systematic(t *testing.T) {
 			}
 		}
 	}
-	// every block size once more with its last transaction repeated (same merkle root for odd sizes)
+	// every block size once more with its last 1, 2, 4 and 8 transactions repeated (same merkle root
+	// when the number of groups of that size is odd)
 	for total := 1; total <= maxN; total++ {
-		sc := &C04Scenario{Corrupt: "dup", Parse: total%2 == 0}
-		for i := 0; i < total-1; i++ {
-			sc.Rel = append(sc.Rel, i%4)
-			sc.InIn = append(sc.InIn, i%2 == 0)
-			sc.Seen = append(sc.Seen, i%3 == 0)
-		}
-		v, f := c04Run(sc)
-		rep.Case(verifkit.Hash(sc), c04Nontrivial(sc, f), flagList(f)...)
-		if v != nil && !seen[v.key] {
-			seen[v.key] = true
-			if verifkit.Known(v.key) {
-				rep.Exclude(v.key)
-				continue
+		for k := 0; k < 4 && 1<<uint(k) <= total; k++ {
+			sc := &C04Scenario{Corrupt: "dup", Parse: total%2 == 0, At: k}
+			for i := 0; i < total-1; i++ {
+				sc.Rel = append(sc.Rel, i%4)
+				sc.InIn = append(sc.InIn, i%2 == 0)
+				sc.Seen = append(sc.Seen, i%3 == 0)
 			}
-			rep.AddViolation(v.key, v.what, sc)
-			t.Errorf("%s: %s", v.key, v.what)
+			v, f := c04Run(sc)
+			rep.Case(verifkit.Hash(sc), c04Nontrivial(sc, f), flagList(f)...)
+			if v != nil && !seen[v.key] {
+				seen[v.key] = true
+				if verifkit.Known(v.key) {
+					rep.Exclude(v.key)
+					continue
+				}
+				rep.AddViolation(v.key, v.what, sc)
+				t.Errorf("%s: %s", v.key, v.what)
+			}
 		}
 	}
 	rep.Exhaustive = true
